@@ -205,7 +205,8 @@ Inductive xfinal :=
 | XReturn (status : N)       (* a response reached the response parser *)
 | XRaise (o : outcome)       (* transport exception propagated *)
 | XTransient (status : N)    (* HttpTransientError *)
-| XNoState                   (* RpcError: stream has finished, nothing sent *)
+| XNoState                   (* RpcError: stream has finished (no state token), nothing sent *)
+| XCancelled                 (* RpcError: stream has been closed or cancelled (_check_not_cancelled), nothing sent *)
 | XExtFail                   (* externalisation raised *)
 | XSwallowed.                (* cancel(): every failure is swallowed *)
 
@@ -214,9 +215,14 @@ Record xtrace := { xsends : nat; xext : bool (* externalisation attempted *); xf
 Definition xfinal_of (f : final) : xfinal :=
   match f with FReturn s => XReturn s | FTransient s _ => XTransient s | FRaise o => XRaise o end.
 
-Definition exchange (has_state : bool) (fs : list outcome) (ext_ok : bool) : xtrace :=
-  if negb has_state then {| xsends := 0; xext := false; xfin := XNoState |}
-  else
+(* the session as exchange() / cancel() see it: _cancelled set | no state token | usable *)
+Inductive sess := SCancelled | SFinished | SLive.
+
+Definition exchange (st : sess) (fs : list outcome) (ext_ok : bool) : xtrace :=
+  match st with
+  | SCancelled => {| xsends := 0; xext := false; xfin := XCancelled |}      (* self._check_not_cancelled() comes first *)
+  | SFinished => {| xsends := 0; xext := false; xfin := XNoState |}
+  | SLive =>
     match hd dflt_outcome fs with
     | OResp s _ =>
         if (s =? 413)%N then
@@ -228,13 +234,17 @@ Definition exchange (has_state : bool) (fs : list outcome) (ext_ok : bool) : xtr
           else {| xsends := 1; xext := true; xfin := XExtFail |}
         else {| xsends := 1; xext := false; xfin := XReturn s |}
     | o => {| xsends := 1; xext := false; xfin := XRaise o |}
-    end.
+    end
+  end.
 
 (* cancel(): (requests, session still has a state token afterwards = false) *)
-Definition cancel (has_state : bool) (fs : list outcome) : xtrace :=
-  if negb has_state then {| xsends := 0; xext := false; xfin := XSwallowed |}
-  else {| xsends := 1; xext := false; xfin := XSwallowed |}.
-Definition cancel_state_after (has_state : bool) : bool := false.
+Definition cancel (st : sess) (fs : list outcome) : xtrace :=
+  match st with
+  | SLive => {| xsends := 1; xext := false; xfin := XSwallowed |}
+  | SCancelled | SFinished => {| xsends := 0; xext := false; xfin := XSwallowed |}   (* finished or no token: nothing to send *)
+  end.
+(* cancel() sets _cancelled (and drops the state token) whatever the session was *)
+Definition cancel_state_after (st : sess) : sess := SCancelled.
 
 (* unary call / stream init: _post_with_retry, then the 413 fallback: externalise and
    _post_with_retry once more (the 415 fallback needs a VGI-Supported-Encodings header on the 415
@@ -261,10 +271,10 @@ Definition op_run (o : op) (co : option config) (jit : nat -> fl) (fs : list out
   match o with
   | OpUnary | OpInit => unary_like co jit fs ext_ok
   | OpCont => continuation co jit fs
-  | OpExchange => exchange true fs ext_ok
-  | OpCancel => cancel true fs
-  | OpExchangeCancelled => exchange (cancel_state_after true) fs ext_ok
-  | OpCancelCancelled => cancel (cancel_state_after true) fs
+  | OpExchange => exchange SLive fs ext_ok
+  | OpCancel => cancel SLive fs
+  | OpExchangeCancelled => exchange (cancel_state_after SLive) fs ext_ok
+  | OpCancelCancelled => cancel (cancel_state_after SLive) fs
   end.
 
 (* ---- entry points for the correspondence runs ---------------------------------------------- *)
@@ -299,6 +309,7 @@ Definition xfinal_code (f : xfinal) : N * N :=
   | XRaise OOtherErr => (6, 0)
   | XRaise (OResp s _) => (7, s)
   | XNoState => (8, 0)
+  | XCancelled => (11, 0)
   | XExtFail => (9, 0)
   | XSwallowed => (10, 0)
   end%N.
